@@ -65,15 +65,19 @@ class Check:
         self.notes = []
 
     # ------------------------------------------------------------------ obligations
-    def regen(self):
-        """ translator: regenerate Supv/Gen/*.lean from the current working tree of /repo """
+    def regen(self, relevant=None):
+        """ translator: regenerate Supv/Gen/*.lean from the current working tree of /repo; the anchors whose name starts
+            with one of `relevant` become obligations of this property (all of them when None) """
         sys.path.insert(0, os.path.join(VERIF, 'tools'))
         import extract
         with Lock(os.path.join(LEAN, '.lake', 'verif.lock')):
             problems = extract.generate(REPO, os.path.join(LEAN, 'Supv', 'Gen'))
-        for anchor, ok, detail in problems:
+        mine = [(a, ok, d) for a, ok, d in problems if relevant is None or any(a.startswith(r) for r in relevant)]
+        for anchor, ok, detail in mine:
             self.obligations.append((f'translator:{anchor}', ok, detail))
-        return all(ok for _, ok, _ in problems)
+        self.trusted.append('tools/extract.py (translator: regenerates lean/Supv/Gen/*.lean from the current source; anchors: '
+                            + ', '.join(a for a, _, _ in mine) + ')')
+        return all(ok for _, ok, _ in mine)
 
     def build(self, targets, timeout=3000):
         """ lake build of the property's modules: the proof obligations """
